@@ -241,17 +241,17 @@ func (m *Model) eval(e Expr) (Val, bool) {
 		if x.Name == "$index" && m.indexPinned {
 			m.tag("pinned:index-nonarray")
 		}
-		if f, ok := m.funcs[x.Name]; ok {
-			if s := m.findVar(x.Name); s == nil {
-				return Val{K: KFunc, F: f}, false
+		if s := m.findVar(x.Name); s != nil {
+			if _, ok := m.funcs[x.Name]; ok {
+				m.tag("pinned:function-shadowed")
 			}
-			m.tag("pinned:function-shadowed")
+			return s.V, false
 		}
-		if s := m.findVar(x.Name); s == nil {
-			switch x.Name {
-			case "printf", "json", "num":
-				return Val{K: KNative, S: x.Name}, false
-			}
+		if f, ok := m.funcs[x.Name]; ok {
+			return Val{K: KFunc, F: f}, false
+		}
+		if isNativeName(x.Name) {
+			return Val{K: KNative, S: x.Name}, false
 		}
 		return m.lookup(x.Name).V, false
 	case *Unary:
